@@ -28,7 +28,17 @@ class Oracle:
         f = op.split()
         if f[0] == "c.rawcmd":
             if reply.startswith("noreply"):
-                cmd = " ".join(bytes.fromhex(x).decode("latin1") if x != "-" else "''" for x in f[2:])[:160]
+                toks = [bytes.fromhex(x).decode("latin1") if x != "-" else "" for x in f[2:]]
+                if reply == "noreply" and toks and toks[0].lower() == "dm.lock" and len(toks) >= 4:
+                    # DM.LOCK waits up to <deadline> seconds for a key that is taken: not answering within the
+                    # harness's 4 s is what it must do when the deadline is longer (the member itself still answers)
+                    try:
+                        if float(toks[3]) >= 3.0:
+                            self.hit("lock_waits_for_its_deadline")
+                            return None
+                    except ValueError:
+                        pass
+                cmd = " ".join(t if t else "''" for t in toks)[:160]
                 return "no reply to [%s]: %s" % (cmd, reply)
             return None
         if reply.startswith("err:") or reply in ("bad-op", "no-cluster"):
